@@ -171,7 +171,7 @@ def tree(work, tier):
         list(ex.map(lambda j: core.run_vh(exe, ["tree-runs", "--plan", j[0], "--out", j[1]], timeout=900), jobs))
     # D: the value discipline of the node loop (zero-width probe, re-search, mate-distance step, fail-soft bounds) on every abstract tree;
     #    the seeded design errors must be rejected by the same theorem
-    variants = ["engine", "no_research", "step_toward_mate", "no_step", "prune_engine", "prune_no_guard"]
+    variants = ["engine", "no_research", "step_toward_mate", "no_step", "prune_engine", "prune_no_guard", "table_engine", "table_store_restricted_root"]
 
     def design(v):
         cfgname = "AlphaBeta.cfg" if (v == "engine" and full) else "AlphaBeta_prune_engine_full.cfg" if (v == "prune_engine" and full) else "AlphaBeta_%s.cfg" % v
@@ -180,7 +180,8 @@ def tree(work, tier):
         dres = dict(ex.map(design, variants))
     core.tlc_ok(dres["engine"], "AlphaBeta design")
     core.tlc_ok(dres["prune_engine"], "AlphaBeta design with futility pruning (MateClaimsSound)")
-    for v in ("no_research", "step_toward_mate", "no_step", "prune_no_guard"):
+    core.tlc_ok(dres["table_engine"], "AlphaBeta design: entries a (restricted) root stores (TableEntriesSound)")
+    for v in ("no_research", "step_toward_mate", "no_step", "prune_no_guard", "table_store_restricted_root"):
         if dres[v]["rc"] != 12:
             raise InfraError("AlphaBeta: the seeded design error %s was not rejected (rc=%d)" % (v, dres[v]["rc"]))
     viols, cnt, st = core.validate_shards(shards, module="TreeTrace.tla", cfg="TreeTrace.cfg", timeout=3000)
@@ -196,7 +197,8 @@ def tree(work, tier):
                 what="AlphaBeta.tla: the node loop's value discipline (zero-width probe of every move, full re-search at pv nodes, mate-distance step, fail-soft "
                      "returns) satisfies the fail-soft theorem against plain minimax on every leaf assignment of the abstract tree and every listed window, and "
                      "three seeded design errors are rejected by it; with every choice of moves skipped at frontier nodes under the engine's guard a mate score at the root "
-                     "remains a true bound (MateClaimsSound), and without the guard (the code before cccf193) it does not.  TreeTrace.tla: every node entry and exit of recorded searches (shallow complete searches, late iterations of deep ones, roots with a repeated history, "
+                     "remains a true bound (MateClaimsSound), and without the guard (the code before cccf193) it does not; what a root restricted to any subset of its moves stores in the table is a true bound "
+                     "of the position (TableEntriesSound), and with the code before 02d6ef3 it is not.  TreeTrace.tla: every node entry and exit of recorded searches (shallow complete searches, late iterations of deep ones, roots with a repeated history, "
                      "roots at the fifty-move boundary, mating roots) is replayed on the specification's game machine: each activation follows its parent by a legal "
                      "move, a null move, a verification / internal-deepening / horizon step under the conditions the search may take them; windows nest; depth "
                      "decreases; out of check quiescence visits captures and promotions only; nodes the rules decide (draw by rule away from the root, mate, stalemate) "
